@@ -70,6 +70,7 @@ func c15Layout(t *rapid.T, win memWindow) (blocks []c15Block, overlap bool) {
 }
 
 func TestC15(t *testing.T) {
+	runWitnesses(t, "C15")
 	col := ev.New("C15", "rapid state machine over memory.Bytes: initial layout of 0-6 non-empty blocks in a 48-byte "+
 		"window (adjacent allowed, overlapping with probability 1/4 -> NewBytes must fail, else succeed), then constant "+
 		"stores (constant width <,=,> store width), loads, Missing and Blocks on arbitrary sub-ranges. Reference: plain "+
